@@ -589,6 +589,9 @@ class SSeq(Value):
             return self.arr, []
         sort = sort if sort is not None else z3.IntSort()
         arr = z3.Const(fresh_name('mat_a'), z3.ArraySort(z3.IntSort(), sort))
+        if concrete(self.length) == 0:
+            self.arr = arr
+            return arr, []
         k = fresh_int('k')
         u = unwrap or (lambda x: to_z3(x))
         ax = z3.ForAll([k], arr[k] == u(self.get(k)), patterns=[arr[k]])
